@@ -1442,7 +1442,7 @@ def variants(tier: str) -> List[Dict[str, Any]]:
 
     for facet in ("svc", "app", "fs"):
         g = _tour.graph(facet)
-        eps, st = _tour.tour(g, _random.Random(7), episode_len=300)
+        eps, st = _tour.tour(g, _random.Random(7), episode_len=300, level="coarse" if quick else "timers")
         tcfg, idx = _tour.scenario(facet, flatten=(facet == "app"))
         seen: Dict[Any, int] = {}
         scripts, record_at, hooks = [], set(), {}
